@@ -12,7 +12,14 @@ type Nodes []Node
 // fairly inexpensive it happens a lot and its common for the same paths to be
 // looked up many time. Especially when doing larger task like comparing GEDCOM
 // files.
-var nodeCache = &sync.Map{} // map[Node]map[Tag]Nodes{}
+//
+// It holds a *sync.Map (map[Node]map[Tag]Nodes{}) that is replaced as a whole
+// by nodesChanged, which may happen while other goroutines are reading.
+var nodeCache atomic.Value
+
+func init() {
+	nodeCache.Store(&sync.Map{})
+}
 
 // editGeneration is incremented by every change to the nodes of any node or
 // document. Values that are calculated lazily from other nodes (like the
@@ -30,7 +37,7 @@ func nodesChanged() {
 	//
 	// We can't simply remove this node because we would have to make sure we
 	// work our way up the chain which we have no easy way of doing right now.
-	nodeCache = &sync.Map{}
+	nodeCache.Store(&sync.Map{})
 }
 
 func currentEditGeneration() uint64 {
@@ -51,17 +58,19 @@ func NewNodes(ns interface{}) (nodes Nodes) {
 //
 // If the node is nil the result will also be nil.
 func NodesWithTag(node Node, tag Tag) (result Nodes) {
-	if v1, ok1 := nodeCache.Load(node); ok1 {
+	cache := nodeCache.Load().(*sync.Map)
+
+	if v1, ok1 := cache.Load(node); ok1 {
 		if v2, ok2 := v1.(*sync.Map).Load(tag); ok2 {
 			return v2.(Nodes)
 		}
 	}
 
 	defer func() {
-		if v1, ok := nodeCache.Load(node); ok {
+		if v1, ok := cache.Load(node); ok {
 			v1.(*sync.Map).Store(tag, result)
 		} else {
-			nodeCache.Store(node, &sync.Map{})
+			cache.Store(node, &sync.Map{})
 		}
 	}()
 
